@@ -23,7 +23,7 @@ HERE = os.path.dirname(os.path.abspath(__file__))
 sys.path.insert(0, HERE)
 import common as C  # noqa: E402
 
-GEN = ["GenLru", "GenCacheOpt", "GenAccept", "GenStages", "GenPath", "GenCodec"]
+GEN = ["GenLru", "GenCacheOpt", "GenAccept", "GenStages", "GenPath", "GenCodec", "GenMemStore"]
 PROOFS = {
     "GenLru": "L5_Stores/GenLruProofs.v",
     "GenCacheOpt": "L5_Stores/GenCacheOptProofs.v",
@@ -31,8 +31,9 @@ PROOFS = {
     "GenStages": "L4_Eval/GenStagesProofs.v",
     "GenPath": "L5_Stores/GenPathProofs.v",
     "GenCodec": "L5_Stores/GenCodecProofs.v",
+    "GenMemStore": "L5_Stores/GenMemStoreProofs.v",
 }
-PROPERTIES = ["Properties/C12g.v", "Properties/C14g.v", "Properties/C15g.v", "Properties/C08g.v", "Properties/C17g.v"]
+PROPERTIES = ["Properties/C12g.v", "Properties/C14g.v", "Properties/C15g.v", "Properties/C08g.v", "Properties/C17g.v", "Properties/C08m.v"]
 OURS = {os.path.splitext(os.path.basename(p))[0] for p in list(PROOFS.values()) + PROPERTIES} | set(GEN)
 SRC_REPO = os.environ.get("DDS_REPO", "/repo")
 
@@ -102,6 +103,18 @@ SCENARIOS = [
      [(CODEC, sub1("cp = self._handled_types.get(pref) or self._handled_types.get(\n                SupportedTypeUtils.from_type(object)\n            )", "cp = self._handled_types.get(pref)"))], "caught"),
     ("harmless (codec): comments, a log line, a renamed local",
      [(CODEC, lambda t: re.sub(r"\bcp\b", "found", sub1("        # First the reference\n", "        # First the reference\n        _logger.debug(f\"get_codec {obj_type} {ref}\")\n")(t)))], "pass"),
+    ("MemoryStore.store_blob: a present key is not overwritten",
+     [(STORE, sub1("        if key in self._cache:\n            _logger.warning(f\"Overwriting key {key}\")\n        self._cache[key] = blob", "        if key in self._cache:\n            _logger.warning(f\"Overwriting key {key}\")\n            return\n        self._cache[key] = blob"))], "caught"),
+    ("MemoryStore.sync_paths: a committed path is never moved",
+     [(STORE, sub1("                _logger.debug(f\"Registering path: {p} -> {k}\")\n            self._paths[p] = k", "                _logger.debug(f\"Registering path: {p} -> {k}\")\n                self._paths[p] = k"))], "caught"),
+    ("MemoryStore.fetch_paths: missing paths are dropped instead of refused",
+     [(STORE, sub1("        if missing_paths:\n            raise DDSException(f\"Missing paths in store: {missing_paths}\")\n        return OrderedDict([(p, self._paths[p]) for p in paths])",
+                   "        return OrderedDict([(p, self._paths[p]) for p in paths if p in self._paths])"))], "caught"),
+    ("MemoryStore.has_blob: a stored None counts as absent",
+     [(STORE, sub1("        return key in self._cache\n", "        return self._cache.get(key) is not None\n"))], "caught"),
+    ("harmless (MemoryStore): log lines changed and added",
+     [(STORE, lambda t: sub1("                _logger.debug(f\"Overwriting path: {p} -> {k}\")", "                _logger.info(f\"moving {p}\")")(
+         sub1("        missing_paths = [p for p in paths if p not in self._paths]", "        _logger.debug(f\"fetch_paths {paths}\")\n        missing_paths = [p for p in paths if p not in self._paths]")(t)))], "pass"),
     # ---- harmless edits
     ("harmless: locals renamed",
      [(LRU, lambda t: re.sub(r"\bres\b", "fetched", re.sub(r"\bcache_obj\b", "hit", t))),
@@ -228,7 +241,7 @@ def verdict(res):
 
 
 def main():
-    need = [os.path.join(C.THEORIES, "Base", "PyRt.vo"), os.path.join(C.THEORIES, "L5_Stores", "CodecProofs.vo"), os.path.join(C.THEORIES, "L5_Stores", "LruProofs.vo"),
+    need = [os.path.join(C.THEORIES, "Base", "PyRt.vo"), os.path.join(C.THEORIES, "L5_Stores", "CodecProofs.vo"), os.path.join(C.THEORIES, "L4_Eval", "Store.vo"), os.path.join(C.THEORIES, "L5_Stores", "LruProofs.vo"),
             os.path.join(C.THEORIES, "L5_Stores", "PathMapProofs.vo"), os.path.join(C.THEORIES, "L4_Eval", "Stages.vo"),
             os.path.join(C.THEORIES, "L2_Disc", "Accept.vo")]
     missing = [p for p in need if not os.path.exists(p)]
